@@ -19,6 +19,9 @@ PRES = [pres(1800, 4.0, 8.0), pres(3600, 8.0, 2.0, gap=2, gap_rain=0, zone="Afri
         pres(900, 0.5, 16.0, gap_rain=4, e0=1700000100 - 1700000100 % 900)]
 
 
+PRES_20MIN = [pres(1200, 4.0, 3.0, e0=1700000400), pres(1200, 4.0, 3.0, e0=531274800, zone="Etc/GMT+5")]
+
+
 def nt_pairs(rec, outs):
     return any(o["pair"] for out in outs for o in out)
 
@@ -126,11 +129,14 @@ def c04(chk, tier):
         "{fall, AT threshold, fast}; flags and interstorm rows committed by the real classify must equal "
         "the declarative clean-dry definition (which TLC shows equal to the online machine). "
         "B: as C01, field data step by step. non-trivial = >= 1 interstorm interval")
+    # PRES_20MIN: a 20-minute grid (step length in hours is not a binary fraction) with -j 3: threshold x step
+    # is exactly 1 mm, so the at-threshold class is exact there too (value-level conformance became possible
+    # once the flags used the increment form, see D8)
     CC.replay_emitted(chk, "MCClassify rain{0,2,5} inc{-1,J,J+1}",
                       {"N1": "5" if q else "6", "N2": "2" if q else "3", "RainVals": "{0, 2, 5}",
                        "IncVals": "<- IncFallAtFast", "S": "4", "J": "4", "Emit": "TRUE"},
                       ["AlgorithmsEqualDefinitions", "InterstormsSound", "KeysUnique"], [],
-                      PRES[:2] if q else PRES, CC.KEYS["C04"], cli_every=10 if q else 5, nontrivial=nt_inter)
+                      (PRES[:2] if q else PRES) + PRES_20MIN, CC.KEYS["C04"], cli_every=10 if q else 5, nontrivial=nt_inter)
     if not q:
         CC.replay_emitted(chk, "MCClassify rain{0,2} inc{0,J+1}", consts(9, 4, "{0, 2}", "IncFlatFast"),
                           ["AlgorithmsEqualDefinitions", "InterstormsSound"], [], PRES[:1], CC.KEYS["C04"],
